@@ -355,7 +355,11 @@ def monitor(case, impl):
                 fails.append(F("B", "SequentialCB(learn=%r,eval=%r,record=%r) on an environment without %r (documented as required) was not rejected before the learner was used: exc=%s, learner calls=%d, rows=%s"
                                % (learn, ev, rec, k, impl["exc"], len(calls), "none" if impl["rows"] is None else len(impl["rows"])),
                                "not-rejected-upfront:missing=%s%s" % (k, gap or "")))
-        return fails, tags
+        if not (missing == ["probability"] and impl["exc"] is None):
+            return fails, tags
+        # finding F1: the code goes on with `probability or 1` per interaction.  Go on too, so that what it then feeds and records is
+        # still held to that (documented by OpeRewards) reading -- in particular on logs where only some interactions carry a propensity
+        tags.append("ips-without-first-probability")
     if impl["exc"]:
         sig = exc_class(case, impl)
         tags.append("exc:" + impl["exc"])
@@ -945,6 +949,10 @@ def gen_episode(rng, boundary=False, cfg_fixed=None):
             pairs = rng.shuffle(pairs) if i == 0 else [[k, idict(pairs)[k]] for k, _ in inters[0]]
         inters.append(pairs)
     batch = None if rng.chance(0.6) else rng.choice([1, 2, 2, 3, 4])
+    if has_prob and len(inters) > 1 and learn != "off" and batch is None and rng.chance(0.12):
+        # a log where only some interactions carry a propensity (LoggedInteraction leaves the key out when none is given; OpeRewards
+        # reads a missing one as 1, interaction by interaction): the first has none, some later ones do
+        inters = [[kv for kv in p_ if kv[0] != "probability" or (q > 0 and (q == 1 or rng.chance(0.6)))] for q, p_ in enumerate(inters)]
     env = {"batch": batch, "gen": rng.chance(0.5), "inters": inters}
 
     return cfg, env, (astyle if has_actions else "int")
@@ -958,6 +966,13 @@ def env_style(env):
     if not acts:
         return "cont"
     return "sparse" if isinstance(acts[0], dict) and "d" in acts[0] else "other"
+
+
+def hetero(env):
+    """interactions with differing key sets (only generated for 'probability'); `Batch` keeps the first interaction's keys only, so
+    such an environment is never batched by the generator"""
+    ks = [sorted(k for k, _ in p_) for p_ in env["inters"]]
+    return any(k != ks[0] for k in ks)
 
 
 def gen_learner(rng, cfgs, envs, allow_pmf=True, has_score=None):
@@ -1011,6 +1026,8 @@ def gen_case(rng, tier="quick", boundary=False):
         for q in range(rng.choice([1, 1, 2])):
             if rng.chance(0.5):
                 e2 = dict(env, gen=rng.chance(0.5), batch=(env.get("batch") if rng.chance(0.7) else rng.choice([None, 2])))
+                if hetero(env):
+                    e2["batch"] = None
             else:
                 _, e2, _ = gen_episode(rng, True, cfg_fixed=cfg)
             hs = (not hs0 if q == 0 else rng.chance(0.5)) if rng.chance(0.8) else hs0
@@ -1021,7 +1038,7 @@ def gen_case(rng, tier="quick", boundary=False):
         for _ in range(rng.choice([1, 1, 2])):
             c2, e2, s2 = gen_episode(rng, True)
             if rng.chance(0.5):                       # same interactions and mode, other batching: the cleanest contrast
-                e2 = dict(env, batch=(rng.choice([1, 2, 2, 3]) if not env.get("batch") else None))
+                e2 = dict(env, batch=(rng.choice([1, 2, 2, 3]) if not env.get("batch") and not hetero(env) else None))
                 c2 = cfg
             then.append({"cfg": c2, "env": e2})
     L = gen_learner(rng, [cfg] + [t["cfg"] for t in then], [env] + [t["env"] for t in then])
@@ -1100,6 +1117,13 @@ def corpus_cases():
                       "then": [{"cfg": {"learn": learn, "eval": "ips", "record": ["reward"]}, "env": {"batch": None, "gen": False, "inters": envq},
                                 "learner": L(fmt="A" if hs else "dAP", has_score=hs, bm="unaware" if hs else "aware")} for hs in order[1:]]}
                 cs.append(c0)
+    # only some interactions carry a propensity (first one does not)
+    het = [[kv for kv in p_ if not (kv[0] == "probability" and q in (0, 2))] for q, p_ in enumerate(
+        [[["context", i], ["actions", {"l": ["a", "b"]}], ["action", "a"], ["reward", {"f": [i + 1, 1]}], ["probability", {"f": [1, 4]}]] for i in range(4)])]
+    one_a = [{"idx": 0, "free": 0, "p": [1, 1], "kw": {}, "s": [1, 2]}]
+    for learn, ev, hs in (("ips", "ips", False), ("ips", None, False), (None, "ips", False), (None, "ips", True), ("on", "ips", False)):
+        if learn != "on":
+            add(learn, ev, ["reward"], het, fmt="AP", script=one_a, has_score=hs)
     # tiny logged propensities with the learner playing the logged action (idx 0 of a one-entry script; logged action = actions[0])
     for pr in ([1, 4096], [1, 10000], [1, 10 ** 9], [1, 2 ** 30]):
         tiny = [[["context", i], ["actions", {"l": [7, 8, 9]}], ["rewards", {"l": [1, 2, 3]}], ["action", 7], ["reward", {"f": [i + 1, 2]}], ["probability", {"f": pr}]]
@@ -1223,9 +1247,9 @@ class C06(Property):
                 if env["inters"]:
                     miss = [x for x in documented_required(cfg, L["has_score"]) if x not in idict(env["inters"][0])]
                     gap_only = bool(miss) and all(known_gap(x, cfg, L["has_score"]) is not None for x in miss)
-                if gap_only:
+                if gap_only and (impl["exc"] is not None or miss != ["probability"]):
                     etags.append("A-skipped:documented-but-unenforced-requirement")
-                elif not any(f["kind"] == "B" for f in efails):
+                elif not any(f["kind"] == "B" and f["sig"] != "not-rejected-upfront:missing=probability" for f in efails):
                     efails += compare_A(ecase, impl, ans)
                 efails += compare_C(ans, bool(env.get("batch")) and bool(env["inters"]))
                 if ans.get("hyp"):
